@@ -11,7 +11,7 @@ def observe(mem, pc, opts):
     from skoolkit.snaskool import DisassemblerConfig, Instruction
     from skoolkit.disassembler import Disassembler
     from skoolkit import traceutils, opcodes, z80
-    sk = {'op': '', 'len': 0, 'variant': 0, 'timing': [], 'texc': '', 'exc': ''}
+    sk = {'op': '', 'len': 0, 'variant': 0, 'timing': [], 'texc': '', 'exc': '', 'ltiming': [], 'ltexc': ''}
     try:
         cfg = DisassemblerConfig(False, False, 8, 66, 1, False, Instruction, ','.join(opts), False)
         ins = Disassembler(mem, cfg).disassemble(pc, pc + 1, 'n')[0]
@@ -23,6 +23,14 @@ def observe(mem, pc, opts):
             sk['timing'] = [] if t is None else ([t] if isinstance(t, int) else list(t))
         except Exception as e:
             sk['texc'] = '%s: %s' % (type(e).__name__, e)
+        # the same bytes disassembled in lower case (sna2skool -l): the timing must be the same
+        try:
+            lcfg = DisassemblerConfig(False, True, 8, 66, 1, False, Instruction, ','.join(opts), False)
+            lins = Disassembler(mem, lcfg).disassemble(pc, pc + 1, 'n')[0]
+            t = z80.get_timing(lins)
+            sk['ltiming'] = [] if t is None else ([t] if isinstance(t, int) else list(t))
+        except Exception as e:
+            sk['ltexc'] = '%s: %s' % (type(e).__name__, e)
     except Exception as e:
         sk['exc'] = '%s: %s' % (type(e).__name__, e)
     tu = {'op': '', 'len': 0, 'exc': ''}
